@@ -262,6 +262,13 @@ fn handle_on_connection(
                 tcb.retx_attempts = 0;
             }
             push_to_listener(k, fd, local);
+            // The ACK that completes the handshake may ride on the
+            // client's first data segment or FIN (its pure handshake
+            // ACK was lost or overtaken): keep processing the segment
+            // instead of discarding what it carries.
+            if !s.payload.is_empty() || s.flags.fin {
+                handle_established(k, fd, local, remote, s);
+            }
         }
         // Data / ACK / FIN on an open or half-closed connection.
         TcpState::Established
